@@ -358,18 +358,31 @@ fn view_of(op: &Op, used: &Out, fresh: &Out, prec_is_f32: bool, in_dom: bool) ->
     }
 }
 
-fn run_ops<F: HF>(ops: &[Op]) -> String {
+fn run_ops<F: HF>(ops: &[Op], ctor: &str) -> String {
     if ops.is_empty() {
         return out2("INVALID", "INVALID");
     }
     let diag = std::env::var("C04_DIAG").is_ok();
     let f32_ = F::NAME == "f32";
     let (last, hist) = ops.split_last().unwrap();
-    let mut obj = FFT::<F>::new();
+    // how the measured object is obtained: new() / default() / clone of a fresh one / clone after the history
+    let mut obj = match ctor {
+        "default" => FFT::<F>::default(),
+        "clone" => {
+            let o = FFT::<F>::new();
+            o.clone()
+        }
+        _ => FFT::<F>::new(),
+    };
     for op in hist {
         let _ = call(&mut obj, op);
     }
-    let used = call(&mut obj, last);
+    let used = if ctor == "histclone" {
+        let mut c = obj.clone();
+        call(&mut c, last)
+    } else {
+        call(&mut obj, last)
+    };
     let mut fresh_obj = FFT::<F>::new();
     let fresh = call(&mut fresh_obj, last);
     let in_dom = value_in_domain(last, f32_);
@@ -385,8 +398,10 @@ fn run_case(line: &str) -> String {
         None => return out2("BAD-CASE", "BAD-CASE"),
     };
     match hdr.as_slice() {
-        ["fft", "f64"] => run_ops::<f64>(&ops),
-        ["fft", "f32"] => run_ops::<f32>(&ops),
+        ["fft", "f64"] => run_ops::<f64>(&ops, "new"),
+        ["fft", "f32"] => run_ops::<f32>(&ops, "new"),
+        ["fft", "f64", c] if CTORS.contains(c) => run_ops::<f64>(&ops, c),
+        ["fft", "f32", c] if CTORS.contains(c) => run_ops::<f32>(&ops, c),
         _ => out2("BAD-CASE", "BAD-CASE"),
     }
 }
@@ -394,6 +409,8 @@ fn run_case(line: &str) -> String {
 // ------------------------------------------------------------------------------------------------
 // generator
 // ------------------------------------------------------------------------------------------------
+
+const CTORS: [&str; 4] = ["new", "default", "clone", "histclone"];
 
 const PATTERNS: [&str; 8] = ["mixed", "allmax", "allneg", "alt", "sparse", "pos", "ends", "ramp"];
 
@@ -624,7 +641,15 @@ impl<'a> Gen<'a> {
         self.stats.bump(&format!("prec:{}", prec));
         self.stats.bump(&format!("pattern:{}", pat_a));
         self.stats.bump(&format!("size:{}:2^{}", prec, n.trailing_zeros()));
-        (self.emit)(format!("fft {} ; {}", prec, ops.join(" ; ")));
+        // how the object is obtained: mostly new(), otherwise default() / clone of a fresh one / clone after the history
+        let ctor = match self.rng.below(8) {
+            0 => " default",
+            1 => " clone",
+            2 => " histclone",
+            _ => "",
+        };
+        self.stats.bump(&format!("ctor:{}", if ctor.is_empty() { "new" } else { ctor.trim() }));
+        (self.emit)(format!("fft {}{} ; {}", prec, ctor, ops.join(" ; ")));
     }
 }
 
@@ -803,6 +828,28 @@ fn gen(args: &Args, emit: &mut dyn FnMut(String), stats: &mut Stats) {
         g.stats.bump("stream:cyclic-wrap");
         g.stats.bump(&format!("prec:{}", prec));
         (g.emit)(format!("fft {} ; {}", prec, ops.join(" ; ")));
+    }
+
+    // (iv'') the very first calls on every kind of object are TINY (transform sizes 1 and 2: the 3/4-turn twiddle
+    //        w[3N/4] needs a table of at least 4 entries, which only construction provides), then a second tiny call
+    {
+        let firsts: [&str; 16] = [
+            "m 3 4,5", "m 4,5 3", "m -7 9", "m 1,2 3,-4", "mi 3 4,5 10,20,30", "mi 2,-3 5 1,1",
+            "fm 3 4,5 2", "fmx 3 4,5 2", "fmi 3 4,5 2 7,7,7,7,7", "fm 6 -7 1", "fmx 6 -7 1",
+            "inv 12,-3 0,0", "inv 5 0", "ii 12,-3 0,0 1,2,3,4,5", "f 1,2 2", "f 7 1",
+        ];
+        for prec in ["f64", "f32"] {
+            for ctor in CTORS {
+                for (i, first) in firsts.iter().enumerate() {
+                    (g.emit)(format!("fft {} {} ; {}", prec, ctor, first));
+                    let second = firsts[(i * 7 + 3) % firsts.len()];
+                    (g.emit)(format!("fft {} {} ; {} ; {}", prec, ctor, first, second));
+                    (g.emit)(format!("fft {} {} ; u 2 ; {} ; {}", prec, ctor, second, first));
+                    g.stats.add("stream:tiny-first-calls", 3);
+                    g.stats.add(&format!("ctor:{}", ctor), 3);
+                }
+            }
+        }
     }
 
     // (v) out-of-domain (spec `any`): asserts of update_n / non-power-of-two sizes, coefficients far outside the envelope
